@@ -25,7 +25,7 @@ use fidget_core::{
 use fidget_jit::JitFunction;
 
 #[derive(Clone, Debug)]
-enum Op {
+pub enum Op {
     Point(Vec<f32>),
     Interval(Vec<(f32, f32)>),
     Float(Vec<Vec<f32>>),
@@ -44,7 +44,7 @@ fn val(ch: &mut Chooser) -> f32 {
     }
 }
 
-fn gen_ops(ch: &mut Chooser, nvars: usize) -> Vec<Op> {
+pub fn gen_ops(ch: &mut Chooser, nvars: usize) -> Vec<Op> {
     let n_at = ch.mark();
     let n = 1 + ch.choose("e5_nops", 6) as usize;
     (0..n)
@@ -93,16 +93,16 @@ fn gen_ops(ch: &mut Chooser, nvars: usize) -> Vec<Op> {
 }
 
 /// Tapes shared by every logical thread
-struct SharedTapes<F: Function> {
-    f: F,
-    p: <F::PointEval as TracingEvaluator>::Tape,
-    i: <F::IntervalEval as TracingEvaluator>::Tape,
-    fl: <F::FloatSliceEval as BulkEvaluator>::Tape,
-    g: <F::GradSliceEval as BulkEvaluator>::Tape,
+pub struct SharedTapes<F: Function> {
+    pub f: F,
+    pub p: <F::PointEval as TracingEvaluator>::Tape,
+    pub i: <F::IntervalEval as TracingEvaluator>::Tape,
+    pub fl: <F::FloatSliceEval as BulkEvaluator>::Tape,
+    pub g: <F::GradSliceEval as BulkEvaluator>::Tape,
 }
 
 /// One logical thread's work: its own evaluators, clones of the shared tapes
-fn work<F: Function + Clone>(sh: &SharedTapes<F>, ops: &[Op]) -> Vec<u64> {
+pub fn work<F: Function + Clone>(sh: &SharedTapes<F>, ops: &[Op]) -> Vec<u64> {
     let (pt, it, ft, gt) =
         (sh.p.clone(), sh.i.clone(), sh.fl.clone(), sh.g.clone());
     let f = sh.f.clone();
